@@ -45,6 +45,9 @@ def plan(tier, seed):
             cfgs.append(dict(shape="ft", k=2, nflows=2, tcp=tcp, node=node))
             cfgs.append(dict(shape="ft", k=4, nflows=1, tcp=tcp, node=node))
     cfgs.append(dict(shape="ft", k=2, nflows=3, tcp=1, node="fair"))
+    cfgs.append(dict(shape="ft", k=2, nflows=2, tcp=1, node="bare", rekey=1))
+    cfgs.append(dict(shape="ft", k=4, nflows=1, tcp=0, node="bare", rekey=1))
+    cfgs += [dict(shape="fiblive"), dict(shape="hubreply")]
     if not quick:
         for node in ("bare", "fair"):
             cfgs.append(dict(shape="ft", k=4, nflows=2, tcp=1, node=node, first=240))
@@ -58,7 +61,7 @@ def plan(tier, seed):
 def execute(ch, cfg):
     res = Result()
     try:
-        out = {"flowdemux": ex_flowdemux, "fibdemux": ex_fibdemux, "switch": ex_switch, "hub": ex_hub, "split": ex_split,
+        out = {"fiblive": ex_fiblive, "hubreply": ex_hubreply, "flowdemux": ex_flowdemux, "fibdemux": ex_fibdemux, "switch": ex_switch, "hub": ex_hub, "split": ex_split,
                "ftshape": ex_ftshape, "ft": ex_ft}[cfg["shape"]](ch, cfg, res)
         res.digest = out
     except ReferenceError:
@@ -186,6 +189,92 @@ def ex_switch(ch, cfg, res):
             res.bad("C18.switch", "%s:%s" % (tag, "wrong-output" if got else "not-delivered"), "nports=%d flow=%d: delivered to %s, rule says %s" % (nports, p.flow_id, got, want))
             break
     return (kind, nports, tuple(flows), tuple(n for n, q in log))
+
+
+def ex_fiblive(ch, cfg, res):
+    """a demux that lives through table changes: entries added / changed in place after a flow has been seen, a default
+    output attached later, and tables that answer for every flow (defaultdict)"""
+    from collections import defaultdict
+    kind = ch.choose(3, lambda c: "table is " + ["a dict", "a defaultdict naming port 1 for every flow", "a dict subclass with __missing__ -> port 2"][c], free=True)
+    flow = ch.choose(3, lambda c: "flow %d" % c, free=True)
+    first = PORTS[ch.choose(3, lambda c: "fib[flow]=%s at construction" % PORTS[c], free=True)]
+    second = [None, 0, 2][ch.choose(3, lambda c: "afterwards fib[flow]=%s is written in place" % [None, 0, 2][c], free=True)]
+    late_default = ch.choose(2, lambda c: "default output attached %s" % ("after the first packet" if c else "at construction"), free=True)
+    log = []
+    outs = [Rec("o%d" % i, log) for i in range(3)]
+
+    class Missing(dict):
+        def __missing__(self, key):
+            return 2
+    base = {flow: first} if first is not None else {}
+    table = [dict(base), defaultdict(lambda: 1, base), Missing(base)][kind]
+    dflt = Rec("default", log)
+    d = FIBDemux(outs=outs, fib=table, default_out=None if late_default else dflt)
+    tag = "FIBDemux(live,%s)" % ["dict", "defaultdict", "dict-with-__missing__"][kind]
+
+    def rule(tab_first):
+        if tab_first is not None:
+            return "o%d" % tab_first
+        return ["default", "o1", "o2"][kind]
+    seq = []
+    p1 = Packet(0, 1, 0, flow_id=flow)
+    if not guarded(res, tag, lambda: d.put(p1)):
+        return ("raise-1", kind, flow, first)
+    want1 = rule(first)
+    if want1 == "default" and late_default:
+        want1 = None
+    seq.append(want1)
+    if late_default:
+        d.default_out = dflt
+    cur = first
+    if second is not None:
+        d.fib[flow] = second
+        cur = second
+    p2 = Packet(1, 1, 1, flow_id=flow)
+    p3 = Packet(1, 1, 2, flow_id=8)          # a flow the table never heard of
+    if not guarded(res, tag, lambda: (d.put(p2), d.put(p3))):
+        return ("raise-2", kind, flow, first, second)
+    seq.append(rule(cur))
+    seq.append(["default", "o1", "o2"][kind])
+    got = [nm for nm, q in log]
+    res.ev("C18.fibdemux")
+    res.nontrivial = second is not None or kind > 0
+    if got != [x for x in seq if x is not None]:
+        res.bad("C18.fibdemux", tag + ":wrong-output-after-the-table-changed" if got[:1] == [x for x in seq[:1] if x] else tag + ":wrong-output",
+                "flow %d: fib[flow] %s then %s, default %s: delivered to %s, rule says %s" % (flow, first, second, "late" if late_default else "set", got, [x for x in seq if x]))
+    return (kind, flow, first, second, late_default, tuple(got))
+
+
+def ex_hubreply(ch, cfg, res):
+    """an endpoint that answers at once, inside its own put: the reply is repeated to everybody but the replier, and the
+    original still reaches everybody but its sender"""
+    n = 3 + ch.choose(2, lambda c: "%d endpoints" % (c + 3), free=True)
+    sender = ch.choose(n, lambda c: "sender ep%d" % c, free=True)
+    replier = ch.choose(n, lambda c: "ep%d replies inside put" % c, free=True)
+    env = Environment()
+    log = []
+    holder = {}
+
+    class Ep:
+        def __init__(self, i):
+            self.i = i; self.element_id = "ep%d" % i; self.out = None
+
+        def put(self, pkt):
+            log.append((self.i, pkt.packet_id))
+            if self.i == replier and pkt.packet_id == 0:
+                self.out.put(Packet(0, 1, 1, src=self.element_id))
+    eps = [Ep(i) for i in range(n)]
+    tag = "Hub(reply-inside-put)"
+    if not guarded(res, tag, lambda: holder.setdefault("h", Hub(env, eps))):
+        return ("raise-ctor",)
+    if not guarded(res, tag, lambda: holder["h"].put(Packet(0, 1, 0, src="ep%d" % sender))):
+        return ("raise-put", n, sender, replier)
+    res.ev("C18.hub")
+    res.nontrivial = replier != sender
+    want = sorted([(i, 0) for i in range(n) if i != sender] + ([(i, 1) for i in range(n) if i != replier] if replier != sender else []))
+    if sorted(log) != want:
+        res.bad("C18.hub", tag + ":wrong-recipients", "sender ep%d, ep%d replies: deliveries (endpoint, packet) %s, expected %s" % (sender, replier, sorted(log), want))
+    return (n, sender, replier, tuple(log))
 
 
 def ex_hub(ch, cfg, res):
@@ -398,7 +487,9 @@ def ex_ft(ch, cfg, res):
     try:
         ok = guarded(res, "FatTree.generate_flows", lambda: flows.update(ft.generate_flows(cfg["nflows"])))
         if ok:
-            ok = guarded(res, "FatTree.generate_fib", lambda: ft.generate_fib(flows, tcp=bool(cfg["tcp"])))
+            # the caller may file the flows under keys of its own: the tables are built from each flow's own id
+            given = {key + 100: fl for key, fl in flows.items()} if cfg.get("rekey") else flows
+            ok = guarded(res, "FatTree.generate_fib", lambda: ft.generate_fib(given, tcp=bool(cfg["tcp"])))
     finally:
         ftmod.sample = saved
     if not ok:
